@@ -6,7 +6,7 @@
 cd "$(dirname "$0")"
 expect="
 C01_m1:C01 C01_m6:C01 C02_m3:C02 C02_m5:C02 C06_m1:C06 C06_m2:C06 C06_m3:C06 C06_m4:C06 C06_m5:C06
-C11_m1:C11 C11_m3:C11 C11_m4:C11 C12_m2:C12 C12_m3:C12 C12_m4:C12 C12_m5:C12
+C11_m1:C11 C11_m3:C11 C11_m4:C11 C12_m1:C12 C12_m2:C12 C12_m3:C12 C12_m4:C12 C12_m5:C12
 C13_m1:C13 C13_m2:C13 C13_m4:C13 C13_m5:C13
 C14_m1:C14 C14_m2:C14 C14_m4:C14 C14_m5:C14 C14_m6:C14
 C15_m1:C15 C15_m2:C15 C15_m3:C15 C15_m4:C15 C15_m5:C15
